@@ -6,6 +6,7 @@ Ctx (evaluation counters, residuals, failures) and returns True, so that one
 violation does not abort the rest of the observed execution; zero evaluations
 of a required contract make the verdict inconclusive.
 """
+import copy
 import functools
 import inspect
 import math
@@ -39,7 +40,11 @@ def tap_init(cls, store_attr='_vmon_decl'):
         if not hasattr(self, store_attr):
             try:
                 ba = sig.bind(self, *a, **kw)
-                d = {k: v for k, v in ba.arguments.items() if k != 'self'}
+                # the declaration is a SNAPSHOT of what was handed in: arrays and containers are copied, so that a
+                # caller who re-uses its own array afterwards does not change what the monitor judges against
+                d = {k: (np.array(v, copy=True) if isinstance(v, np.ndarray) else
+                         copy.deepcopy(v) if isinstance(v, (list, tuple, dict)) else v)
+                     for k, v in ba.arguments.items() if k != 'self'}
             except TypeError:
                 d = {'_unbound': True}
             try:
